@@ -41,13 +41,13 @@ pub struct Cell {
 }
 
 impl Cell {
-    fn at(&self, c: usize, j: usize) -> &[i64] {
+    pub fn at(&self, c: usize, j: usize) -> &[i64] {
         let o = (c * self.size + j) * self.n;
         &self.data[o..o + self.n]
     }
 }
 
-fn cell_of(g: &GLWE<&[u8]>, ptlimb: usize) -> Cell {
+pub fn cell_of(g: &GLWE<&[u8]>, ptlimb: usize) -> Cell {
     let v = g.data();
     let (n, cols, size) = (v.n(), v.cols(), v.size());
     let mut data = Vec::with_capacity(n * cols * size);
@@ -60,7 +60,7 @@ fn cell_of(g: &GLWE<&[u8]>, ptlimb: usize) -> Cell {
 }
 
 /// centred error of every coefficient: exact phase modulo the part of the torus below the plaintext limb
-fn errors_of(cell: &Cell, sk: &[Vec<i64>], b: usize) -> Vec<i128> {
+pub fn errors_of(cell: &Cell, sk: &[Vec<i64>], b: usize) -> Vec<i128> {
     let (n, size) = (cell.n, cell.size);
     let low_limbs = if cell.ptlimb == usize::MAX { size } else { size - 1 - cell.ptlimb };
     let modulus: i128 = 1i128 << (b * low_limbs);
@@ -254,7 +254,7 @@ rnd_backend!(std_ntt120ref, NTT120Ref);
 rnd_backend!(std_fft64avx, FFT64Avx);
 rnd_backend!(std_ntt120avx, NTT120Avx);
 
-fn std_cells(be: &str, lay: &str, t: &[&str], sxs: u64, sxa: u64, sxe: u64, ptvar: i64) -> (Vec<Cell>, Vec<Vec<i64>>) {
+pub fn std_cells(be: &str, lay: &str, t: &[&str], sxs: u64, sxa: u64, sxe: u64, ptvar: i64) -> (Vec<Cell>, Vec<Vec<i64>>) {
     match be {
         "ntt120ref" => std_ntt120ref(lay, t, sxs, sxa, sxe, ptvar),
         "fft64avx" => std_fft64avx(lay, t, sxs, sxa, sxe, ptvar),
@@ -264,7 +264,7 @@ fn std_cells(be: &str, lay: &str, t: &[&str], sxs: u64, sxa: u64, sxe: u64, ptva
 }
 
 /// the mask part of a cell in the order the words are consumed
-fn mask_words(c: &Cell) -> Vec<i64> {
+pub fn mask_words(c: &Cell) -> Vec<i64> {
     if c.ptlimb == usize::MAX - 1 {
         // LWE: one column, every limb's n+1 coefficients are drawn; coefficient 0 is overwritten by the body
         return c.data.clone();
@@ -353,6 +353,9 @@ fn run_case(op: &str, t: &[&str]) -> String {
                     }
                     if c.ptlimb != usize::MAX && c.ptlimb >= limb {
                         continue; // the plaintext limb is not above the error limb: error not separable
+                    }
+                    if c.ptlimb != usize::MAX && (scale + 5) > b * (limb - c.ptlimb) - 1 {
+                        continue; // the error would reach the plaintext limb
                     }
                     for e in errors_of(c, &sk, b) {
                         let e = e >> (b * (c.size - 1 - limb));
